@@ -1070,3 +1070,61 @@ Proof.
   - discriminate.
   - intros a i N. unfold mu1, mu2. cbn [snd]. destruct (N.eqb a 0) eqn:E; auto. apply N.eqb_eq in E. congruence.
 Qed.
+
+(* ---- property C14 as a statement about an array domain given by its history machine ---- *)
+Record array_domain := mkAD {
+  ad_val : Type;
+  ad_top : ad_val;
+  ad_step : list ad_val -> ahop -> option (list ad_val);
+  ad_get : list ad_val -> reg -> ad_val;
+  ad_at : ad_val -> var -> itv;
+  ad_is_bottom : ad_val -> bool;
+  (* side conditions of an operation in a state (canonical expressions over program
+     variables, fresh names, operations of the modelled fragment) *)
+  ad_ok : (arr -> Z) -> (arr -> option Z) -> list ad_val -> ahop -> Prop }.
+
+Fixpoint ad_run (D : array_domain) (rs : list (ad_val D)) (h : list ahop) : option (list (ad_val D)) :=
+  match h with
+  | [] => Some rs
+  | o :: r => match ad_step D rs o with Some rs' => ad_run D rs' r | None => None end
+  end.
+Fixpoint ad_hist_ok (D : array_domain) esz onecell (rs : list (ad_val D)) (h : list ahop) : Prop :=
+  match h with
+  | [] => True
+  | o :: r => ad_ok D esz onecell rs o /\
+              match ad_step D rs o with Some rs' => ad_hist_ok D esz onecell rs' r | None => True end
+  end.
+
+(* For every element-size assignment, every set of one-cell arrays, every number of
+   registers and every admissible history started from top: every state reached by the
+   concrete operations is described (so the value a load has just read is in at(lhs)), and
+   its register is not bottom. *)
+Definition C14_statement (D : array_domain) : Prop :=
+  forall esz onecell n h rs,
+    ad_hist_ok D esz onecell (repeat (ad_top D) n) h ->
+    ad_run D (repeat (ad_top D) n) h = Some rs ->
+    forall r s mu, cget (fold_left (cstep esz onecell) h (repeat (fun _ => True) n)) r (s, mu) ->
+      ad_is_bottom D (ad_get D rs r) = false /\
+      forall x, is_prog x -> gamma (ad_at D (ad_get D rs r) x) (s x).
+
+Definition smash_interval : array_domain :=
+  mkAD ast s_top astep aget s_at s_is_bottom hop_ok.
+
+Lemma ad_run_smash rs h : ad_run smash_interval rs h = arun rs h.
+Proof. revert rs. induction h as [|o r IH]; simpl; auto. intros rs. destruct (astep rs o); auto. Qed.
+Lemma ad_hist_ok_smash esz onecell rs h :
+  ad_hist_ok smash_interval esz onecell rs h <-> hist_ok esz onecell rs h.
+Proof.
+  revert rs. induction h as [|o r IH]; simpl; [tauto|]. intros rs.
+  destruct (astep rs o) as [rs'|]; [rewrite IH|]; tauto.
+Qed.
+
+Theorem smash_interval_C14 : C14_statement smash_interval.
+Proof.
+  intros esz onecell n h rs OK RUN r s mu C.
+  rewrite ad_run_smash in RUN. apply ad_hist_ok_smash in OK.
+  pose proof (ahistory_sound esz onecell h _ _ _ (rel_top esz onecell n) OK RUN) as R.
+  split.
+  - eapply areach_not_bottom; eauto.
+  - intros x P. eapply areach_at_sound; eauto.
+Qed.
